@@ -152,11 +152,13 @@ class _Eval:
         self.pc = ()
         self.sum = Summary(func)
         a = func.node.args
+        given = set(self.env) if env else set()
         for p in a.posonlyargs + a.args + a.kwonlyargs:
-            self.env[p.arg] = bindings.get(p.arg, ("param", p.arg))
-        if a.vararg:
+            if p.arg in bindings or p.arg not in given:
+                self.env[p.arg] = bindings.get(p.arg, ("param", p.arg))
+        if a.vararg and (a.vararg.arg in bindings or a.vararg.arg not in given):
             self.env[a.vararg.arg] = bindings.get(a.vararg.arg, ("param", "*" + a.vararg.arg))
-        if a.kwarg:
+        if a.kwarg and (a.kwarg.arg in bindings or a.kwarg.arg not in given):
             self.env[a.kwarg.arg] = bindings.get(a.kwarg.arg, ("param", "**" + a.kwarg.arg))
         self.dead = False
 
@@ -458,6 +460,8 @@ class _Eval:
                 return ("global", r[1].name)
             if r is not None and r[0] == "const":
                 return ("global", f"{r[1].name}:{r[2]}")
+            if ":" in v[1]:
+                return ("attr", v, e.attr)  # attribute of a repo constant / class / function object
             return ("global", v[1] + "." + e.attr)
         return ("attr", v, e.attr)
 
